@@ -55,3 +55,12 @@ Definition check_hcase (p : params) (k : hcase) : bool :=
   let '(st, outs) := lab_run p (h_cfg k) [] (h_ops k) in
   list_eqb labout_eqb outs (h_outs k)
   && list_eqb Nat.eqb (sort_nat (dedup (keys st))) (h_final k).
+
+(* ---- what Lab.is_cached answers, given what the task type's cache class says about the current store, whether the key directory
+   exists in the storage, and what this Lab object answered for the task earlier *)
+Definition lab_is_cached (m : is_cached_mode) (cache_says storage_has answered_true_before : bool) : bool :=
+  match m with
+  | IsCachedAsksCache => cache_says
+  | IsCachedAsksStorage => storage_has
+  | _ => answered_true_before || cache_says
+  end.
